@@ -1028,7 +1028,7 @@ func (index *fkDeleteCascadeConstraint) ProcessAfterUpdate(*IndexingContext) {
 
 func (index *fkDeleteCascadeConstraint) ProcessBeforeDelete(ctx *IndexingContext) {
 	if !ctx.ErrHolder.HasError() {
-		filter, err := ast.Parse(index.symbol.GetStore(), fmt.Sprintf(`%v = "%v"`, index.symbol.GetName(), string(ctx.RowId)))
+		filter, err := ast.NewSymbolEqualsStringQuery(index.symbol.GetStore(), index.symbol.GetName(), string(ctx.RowId))
 		if ctx.ErrHolder.SetError(err) {
 			return
 		}
